@@ -153,7 +153,7 @@ def programs(tier: str) -> list[dict]:
                   "outs": {"out0": 2, "out1": 3, "out2": 4}, "nvar": 5})
     # arithmetic on booleans consumed by wider arithmetic: stored (a bool temporary) and
     # inlined (a C expression over 0/1 integers) variants must agree
-    for p in progspace.fam_boolarith():
+    for p in [*progspace.fam_boolarith(), *progspace.fam_same_buffer()]:
         p["outs"] = {("out0" if k == "out" else k): v for k, v in p["outs"].items()}
         p["nvar"] = 2
         progs.append(p)
